@@ -160,3 +160,17 @@ Example C04_api_nonvacuous_listen_only :
   n_mode (rn (ex_node 0)) = 0 /\ queue_empty (n_q (rn (ex_node 0))).
 Proof. vm_compute. repeat split. Qed.
 Print Assumptions C04_api_nonvacuous_listen_only.
+
+(* known finding listen-only:queued-frame-flushed, machine-checked: the premise "send queue empty" of the listen-only statements cannot be
+   dropped for a node that becomes listen-only at run time.  An open node queues a frame the driver refuses, the application calls
+   SetMode(listen-only), and the next SendFrames hands the queued frame to the driver although the node is listen-only now. *)
+Definition lo_backlog_ops : list xop :=
+  [ XBase (RBase (OAccept [false])); XBase (RBase (OSend 0 {| m_pri := 2; m_pgn := 127250; m_src := 0; m_dst := 255; m_data := [1;2;3;4;5;6;7;8]; m_tp := false |}));
+    XApi (ASetMode 0 22); XBase (RBase (OAccept [])); XBase (RBase OFlush) ].
+Example C04_runtime_listen_only_backlog_refuted :
+  let '(r', evs) := xrun gf_none (ex_node 1) lo_backlog_ops in
+  n_mode (rn r') = 0 /\
+  map (fun ev => map (fun e => match e with EvTx id _ _ a => (id, a) | _ => (0, false) end) (filter is_tx ev)) evs
+    = [ []; [(166793758, false)]; []; []; [(166793758, true)] ].
+Proof. vm_compute. split; reflexivity. Qed.
+Print Assumptions C04_runtime_listen_only_backlog_refuted.
